@@ -75,7 +75,8 @@ def gen(rng):
     kind = rng.random()
     if kind < 0.3:
         o = rng.choice(['german', 'english', 'russian'])
-        g.s += '\\usepackage[%s]{babel}\n' % o
+        g.s += '\\usepackage[%s]{%s}\n' % (o, rng.choice(['babel', 'babel', 'babel,amsmath',
+                                                           'amsmath,babel', 'xcolor,babel,amsmath']))
         cur = LT[o]
     elif kind < 0.5:
         o1 = rng.choice(['german', 'english'])
